@@ -46,7 +46,13 @@ class StubGenerator:
     def normal(self, loc=0.0, scale=1.0, size=None):
         # a normal draw is loc + scale * z with z an arbitrary real
         zs = self._draw_array('normal', size, (loc, scale), lambda ctx, x: None)
+        self.__dict__.setdefault('zlog', []).append(zs)
         return zs * scale + loc
+
+    def standard_normal(self, size=None):
+        zs = self._draw_array('normal', size, (0.0, 1.0), lambda ctx, x: None)
+        self.__dict__.setdefault('zlog', []).append(zs)
+        return zs
 
     def random(self, size=None):
         return self.uniform(0.0, 1.0, size)
